@@ -552,6 +552,11 @@ func c10Scenario(thorough bool) func(c *xplor.Ctx) {
 		} else {
 			respMsg = big
 		}
+		respCL := 0
+		if !p.target.Enveloped() {
+			respCL = c.Free("response-content-length", 3)
+			c.Attr("~response-content-length", []string{"none", "true", "1000L (lie)"}[respCL])
+		}
 		be := &world.Backend{}
 		usedRespComp := ""
 		be.Respond = func(b *world.Backend, r *http.Request) *world.Reply {
@@ -562,7 +567,14 @@ func c10Scenario(thorough bool) func(c *xplor.Ctx) {
 				comp = world.PickAccepted(req, tcomp)
 			}
 			usedRespComp = comp
-			return world.EchoReply(req, [][]byte{Enc(req.Codec, respMsg)}, comp, nil)
+			rep := world.EchoReply(req, [][]byte{Enc(req.Codec, respMsg)}, comp, nil)
+			switch respCL {
+			case 1: // the backend declares the length of its flat body (what most servers do)
+				rep.HasCL, rep.ContentLength = true, int64(len(rep.Out.Body))
+			case 2: // ... or declares a huge one (a broken or hostile backend): nothing may be sized by it
+				rep.HasCL, rep.ContentLength = true, int64(1000*L)
+			}
+			return rep
 		}
 		cfg := world.Config{Protocols: []vanguard.Protocol{world.FormToProtocol(p.target)}, Codecs: []string{p.tcodec}, MaxMsg: uint32(L), TOpts: c10Options(acct)}
 		if tcomp == "" {
@@ -692,6 +704,15 @@ func c10Scenario(thorough bool) func(c *xplor.Ctx) {
 		}
 		if st.compInMax > L {
 			c.Fail("C10.compressed-oversized", "a payload of %d bytes was held and handed to a compressor under a limit of %d", st.compInMax, L)
+		}
+		if respCL == 2 {
+			// the response is broken by construction (body shorter than declared): only the
+			// memory bounds above are judged, and that it is not taken for a success
+			if ok && dir == "response" {
+				c.Fail("C10.lost", "a response whose body is shorter than its declared Content-Length was relayed as success")
+			}
+			c.Outcome(dir + " lying-content-length")
+			return
 		}
 		// (b) an oversized message is not delivered
 		if delivered {
